@@ -201,7 +201,17 @@ func checkChangeConflictExclusiveKinds(st *state.State, newExclusiveChangeKind, 
 			if downgrading, err := changeIsSnapdDowngrade(st, chg); err != nil {
 				return err
 			} else if !downgrading {
-				continue
+				if newExclusiveChangeKind == "" {
+					continue
+				}
+				// an ordinary refresh/revert: like any other change in
+				// progress it stops a new exclusive change
+				return &ChangeConflictError{
+					Message: fmt.Sprintf("other changes in progress (conflicting change %q), change %q not allowed until they are done", chg.Kind(),
+						newExclusiveChangeKind),
+					ChangeKind: chg.Kind(),
+					ChangeID:   chg.ID(),
+				}
 			}
 			return &ChangeConflictError{
 				Message:    "snapd downgrade in progress, no other changes allowed until this is done",
